@@ -352,6 +352,21 @@ type Finding struct {
 	Replay   string `json:"replay"` // relative to /verif
 	Commit   string `json:"commit,omitempty"`
 	Relax    string `json:"relaxation,omitempty"`
+	// Also: further properties whose checks use the same reference model and
+	// therefore need the same relaxation while the finding is open
+	Also []string `json:"also,omitempty"`
+}
+
+func (f Finding) concerns(prop string) bool {
+	if f.Property == prop {
+		return true
+	}
+	for _, a := range f.Also {
+		if a == prop {
+			return true
+		}
+	}
+	return false
 }
 
 func loadFindings() ([]Finding, error) {
@@ -405,7 +420,7 @@ func superMain(t *testing.T) int {
 	violations := []string{}
 	nKnown := 0
 	for _, f := range finds {
-		if f.Property != prop || f.Replay == "" {
+		if !f.concerns(prop) || f.Replay == "" {
 			continue
 		}
 		rp := filepath.Join(verifRoot, f.Replay)
@@ -437,6 +452,11 @@ func superMain(t *testing.T) int {
 	relaxCSV := strings.Join(relax, ",")
 
 	// 2. workers
+	if old, _ := filepath.Glob(filepath.Join(workRoot(), "replays", prop+"-*.json")); len(old) > 0 {
+		for _, f := range old {
+			os.Remove(f)
+		}
+	}
 	outDir := filepath.Join(workRoot(), "build", "out", prop)
 	os.RemoveAll(outDir)
 	os.MkdirAll(outDir, 0o755)
